@@ -861,6 +861,8 @@ func (t *TriDense) SolveTo(dst *Dense, trans bool, b Matrix) error {
 	}
 
 	dst.reuseAsNonZeroed(n, nrhs)
+	// t is read while the solution is formed in dst.
+	dst.checkOverlap(generalFromTriangular(t.mat))
 	bU, bTrans := untranspose(b)
 	if dst == bU {
 		if bTrans {
